@@ -421,13 +421,17 @@ impl World {
                 (Outcome::Ok(resp), before, after)
             }
             Ok(Err(e)) => {
+                // what a refused call left behind before the (emulated) rollback: reported, so that a
+                // handler that writes first and refuses afterwards is seen
                 let k = err_kind(&e);
+                let dirty = raw_dump(&self.deps.storage);
                 self.restore(&before);
-                (Outcome::Err(k), before.clone(), before)
+                (Outcome::Err(k), before, dirty)
             }
             Err(_) => {
+                let dirty = raw_dump(&self.deps.storage);
                 self.restore(&before);
-                (Outcome::Err("PANIC".into()), before.clone(), before)
+                (Outcome::Err("PANIC".into()), before, dirty)
             }
         }
     }
@@ -444,6 +448,10 @@ impl World {
             }
             Outcome::Err(k) => {
                 self.line(&format!("R {}", k));
+                if before != after {
+                    self.emit_deltas(before, after);
+                    self.stats.branch("refused_call_had_written");
+                }
                 self.stats.bump(&format!("{}:{}", kind, k));
                 let rec = self.trace[self.mark..].to_string();
                 self.stats.note_distinct(&format!("{}:{}", kind, k), &rec);
